@@ -84,6 +84,11 @@ func engRestart(e *Env) {
 	if e.thorough() {
 		nHist, maxCrash = 120, 1000
 	}
+	acpRounds := 2
+	if e.thorough() {
+		acpRounds = 25
+	}
+	restartACP(e, ctx, r, acpRounds)
 	for hi := 0; hi < nHist; hi++ {
 		n, ctl, raw := newTracedNode(ctx, "N")
 		t := newNd(ctx, "T")
